@@ -10,6 +10,7 @@
   Every theorem is followed by an `example` exhibiting its hypotheses on a non-trivial instance.
 -/
 import Aqv.Lemmas.VmMain
+import Aqv.Lemmas.VmMemAccess
 namespace Aqv.Props.C07
 open Aqv.Vm Aqv.Gen.VmFlags
 
@@ -52,6 +53,20 @@ theorem stack_reads_within_validated_height :
 
 set_option maxRecDepth 4096 in
 example : ∃ f ∈ table .homestead, memFnReads f.memFn = 7 ∧ f.pops = 7 := by decide
+
+/-- `mem_access_in_bounds_partial` (part of "no modelled panic"): in every instruction set, for every operand values, each
+    memory range `(offset, length)` with length > 0 that the body of an execute function dereferences (memory.Get / GetPtr /
+    Set / store[off]; ranges transcribed from instructions.go in `execMemRanges`) ends at or below the size computed by the
+    opcode's memorySize function — to which Run has resized the memory (after charging for it) before `execute` runs.
+    PARTIAL: the ranges are a hand transcription of the execute bodies, not extracted from the code; the harness' recover()
+    on the real code remains the check for the bodies themselves. -/
+theorem mem_access_in_bounds_partial (ep : Epoch) (f : OpF) (hf : f ∈ table ep) (args : List Nat) (memorySize : Nat)
+    (hms : memorySizeOf (memReq f.memFn args) = .ok memorySize) :
+    ∀ r ∈ execMemRanges f args, 0 < r.2 → r.1 + r.2 ≤ memorySize :=
+  exec_ranges_covered hf args memorySize hms
+
+-- CALL with input [0x40, 0x40+0x20) and output [0x100, 0x100+0x40): memorySize = 0x140 covers both
+example : memorySizeOf (memReq .memoryCall [0, 0, 0, 0x40, 0x20, 0x100, 0x40]) = .ok 0x140 := rfl
 
 instance (env : Env) : Decidable (EnvOK env) := by unfold EnvOK; infer_instance
 
